@@ -186,6 +186,7 @@ func rangeWritesEach(g *flow.Graph, rn *flow.Node) bool {
 
 func runC04(c *Ctx) {
 	runC04own(c)
+	c.alsoUnder(map[string]string{"R13.1": "R04.30"}, func(construct string) bool { return strings.Contains(construct, "css.") || strings.HasPrefix(construct, "floor/") }, func() { c.r131() })
 	// R04.4
 	const r4 = "R04.4"
 	c.R.Rule(r4, "strings, URLs and custom-property values must reach the output byte for byte. In package css every call of a parse/v2 helper that rewrites white space *inside* a byte string (a function returning []byte whose name contains `MultipleWhitespace`) lies in the CommentGrammar case of cssMinifier.minifyGrammar (the text of a `/*! … */` comment); everything else the minifier handles is token data — a raw value collapsed as a whole changes the strings in it (`--sep:\"a  b\"` → `\"a b\"`)")
@@ -598,6 +599,8 @@ func runC09own(c *Ctx) {
 	c.r0924(pk)
 	c.r0925(pk)
 	c.r0148(pk, "R09.26")
+	// `a||b??c` is a syntax error: the level tests of the conditional rewrites are validity clauses too
+	c.alsoUnder(map[string]string{"R01.38": "R09.29"}, nil, func() { c.r0138(pk) })
 }
 
 // R09.4: `1.a` is not a member access — a property written after a number needs the integer test.
@@ -2094,7 +2097,7 @@ func (c *Ctx) r0427(pk *packages.Package, rule string) {
 // R04.28: minify.Decimal only sees numbers that are written without an exponent.
 func (c *Ctx) r0428(pk *packages.Package) {
 	const rule = "R04.28"
-	c.R.Rule(rule, "minify.Decimal minifies a decimal and `does not parse or output exponents`: given `1.26e10` it takes the digits of the exponent for decimals and removes its trailing zero (`1.26e1`), with a precision it rounds across the `e`. CSS3 numbers may be written with an exponent, and with KeepCSS2 package css sends every number to Decimal. Every call of minify.Decimal in package css is dominated by the false outcomes of tests of its argument for the bytes 'e' and 'E'")
+	c.R.Rule(rule, "minify.Decimal minifies a decimal and `does not parse or output exponents`: given `1.26e10` it takes the digits of the exponent for decimals and removes its trailing zero (`1.26e1`), with a precision it rounds across the `e`. CSS3 numbers may be written with an exponent, and with KeepCSS2 package css sends every number to Decimal. (a) every call of minify.Decimal in package css is dominated by the false outcomes of tests of its argument for the bytes 'e' and 'E'; (b) a function that makes that call does not return its byte slice parameter as it was given — Token.IsZero relies on every number being minified")
 	info := pk.TypesInfo
 	n := 0
 	for _, fd := range load.FuncDecls(pk) {
@@ -2123,7 +2126,14 @@ func (c *Ctx) r0428(pk *packages.Package) {
 						continue
 					}
 					for _, side := range []ast.Expr{be.X, be.Y} {
-						ce, ok := ast.Unparen(side).(*ast.CallExpr)
+						side = ast.Unparen(side)
+						if id, ok := side.(*ast.Ident); ok {
+							// `i := bytes.IndexByte(x, c)` tested as `i != -1`
+							if d := c.singleDef(pk, id); d != nil {
+								side = ast.Unparen(d)
+							}
+						}
+						ce, ok := side.(*ast.CallExpr)
 						if !ok || calleeName(info, ce) != "bytes.IndexByte" || len(ce.Args) != 2 || nospace(str(ce.Args[0])) != arg {
 							continue
 						}
@@ -2139,6 +2149,34 @@ func (c *Ctx) r0428(pk *packages.Package) {
 			}
 			c.R.Check(seen['e'] && seen['E'], rule, fmt.Sprintf("css.%s/minify.Decimal#%d only for a number without an exponent", load.FuncName(fd), n), c.pos(call), "behind tests that "+arg+" holds neither 'e' nor 'E'",
 				"a number that may be written with an exponent is handed to minify.Decimal, which does not know exponents: with KeepCSS2 `width:1.26e10px` becomes `width:1.26e1px`, `00e3px` becomes `e3px`")
+		}
+		// (b) the function that guards minify.Decimal does not hand a number back as it was given: Token.IsZero and the cut of
+		// a zero's unit rely on every number being minified (`starting with a zero means it is zero`)
+		if fd.Type.Params != nil && fd.Type.Results != nil {
+			params := map[types.Object]bool{}
+			for _, f := range fd.Type.Params.List {
+				for _, nm := range f.Names {
+					if sl, ok := info.TypeOf(f.Type).Underlying().(*types.Slice); ok && isByteType(sl.Elem()) {
+						params[info.Defs[nm]] = true
+					}
+				}
+			}
+			var raw []string
+			ast.Inspect(fd.Body, func(z ast.Node) bool {
+				if _, isLit := z.(*ast.FuncLit); isLit {
+					return false
+				}
+				if rs, ok := z.(*ast.ReturnStmt); ok && len(rs.Results) == 1 {
+					if id, ok := ast.Unparen(rs.Results[0]).(*ast.Ident); ok && params[info.Uses[id]] {
+						raw = append(raw, c.pos(rs))
+					}
+				}
+				return true
+			})
+			if len(params) > 0 {
+				c.R.Check(len(raw) == 0, rule, fmt.Sprintf("css.%s/no number is handed back unminified", load.FuncName(fd)), c.pos(fd), "every return is the result of a minifying call",
+					"a number is returned as it was given ("+strings.Join(raw, ", ")+"): Token.IsZero takes every number that starts with `0` for zero, so with KeepCSS2 `margin:0.5e1px` (5px) becomes `margin:0`")
+			}
 		}
 	}
 	c.R.Floor(rule, "calls of minify.Decimal", n, 1)
